@@ -1,11 +1,14 @@
 ------------------------------ MODULE MC_Mvcc ------------------------------
 EXTENDS Mvcc, TLC, Json
 CONSTANTS MaxHist
-VARIABLE hist_
-vars == <<curVer, hist, ehist, chain, eends, eprop, elog, starts, hist_>>
+VARIABLE hist_,
+         pruned    \* how many entries of each chain / log the most recent GC pass drained (the code's branches: skip a
+                   \* chain of <= 1 entries, keep everything, drain a prefix) -- part of ViewP only
+vars == <<curVer, hist, ehist, chain, eends, eprop, elog, starts, hist_, pruned>>
 H(r) == hist_' = Append(hist_, r)
-Init == MInit /\ hist_ = <<>>
-Next ==
+NoPruned == [n |-> [n \in NodeIds |-> 0], e |-> [e \in EdgeIds |-> 0]]
+Init == MInit /\ hist_ = <<>> /\ pruned = NoPruned
+Core ==
     \/ \E n \in NodeIds, ls \in SUBSET Labels : CreateNode(n, ls) /\ H([op |-> "CreateNode", labels |-> ls])
     \/ \E n \in NodeIds, v \in Vals : SetNodeProp(n, v) /\ H([op |-> "SetNodeProp", n |-> n, v |-> v])
     \/ \E n \in NodeIds : RemoveNodeProp(n) /\ H([op |-> "RemoveNodeProp", n |-> n])
@@ -20,7 +23,14 @@ Next ==
     \/ \E k \in DOMAIN starts : EndTxn(k) /\ H([op |-> "EndTxn", k |-> k])
     \/ \E w \in 0..MaxV + 1 : Gc(w) /\ H([op |-> "Gc", w |-> w])
     \/ GcAuto /\ H([op |-> "GcAuto"])
+Next == /\ Core
+        /\ pruned' = IF hist_'[Len(hist_')].op \in {"Gc", "GcAuto"}
+                      THEN [n |-> [n \in NodeIds |-> Len(chain[n]) - Len(chain'[n])], e |-> [e \in EdgeIds |-> Len(elog[e]) - Len(elog'[e])]]
+                      ELSE pruned
 Spec == Init /\ [][Next]_vars
+\* the transition cover of ViewP also distinguishes HOW a state was reached by the last GC pass: a write after a pass that
+\* drained a log down to its base entry is another transition than the same write after a pass that had nothing to drain
+ViewP == <<curVer, hist, ehist, chain, eends, eprop, elog, starts, pruned>>
 View == <<curVer, hist, ehist, chain, eends, eprop, elog, starts>>
 Bound == Len(hist_) <= MaxHist
 Emit == PrintT(<<"SCRIPT", ToJson(hist_')>>)
